@@ -1,6 +1,7 @@
 package genetics
 
 import (
+	"sort"
 	"github.com/yaricom/goNEAT/v4/neat"
 )
 
@@ -167,5 +168,41 @@ func VC08_RealCompat() {
 		vAssert(vImplies(vAnd(dcb < opts.CompatThreshold, dcb < dca), oc.Species == ob.Species), "C08: the third organism joins the strictly closer compatible species")
 		vAssert(vImplies(vAnd(dca >= opts.CompatThreshold, dcb >= opts.CompatThreshold), oc.Species != oa.Species && oc.Species != ob.Species), "C08: the third organism founds a species when both are too far")
 	}
+	vReach("end")
+}
+
+// the representative of a species is its first organism AT THE TIME an organism is speciated: between two speciation
+// passes the library re-orders a species' members by fitness (the sort at the start of every epoch), and whatever was
+// first before no longer matters
+func VC08_RepresentativeAfterSort() {
+	pop := newPopulation()
+	opts := c07Opts()
+	opts.CompatThreshold = vFloat("CompatThreshold")
+	vAssume(vAnd(opts.CompatThreshold > 0, opts.CompatThreshold <= 100))
+	if vChoice("method", 2) == 0 {
+		opts.GenCompatMethod = neat.GenomeCompatibilityMethodLinear
+	} else {
+		opts.GenCompatMethod = neat.GenomeCompatibilityMethodFast
+	}
+	a, b, c := c07Genome("a", 1), c07Genome("b", 1), c07Genome("c", 1)
+	oa, ob, oc := &Organism{Genotype: a}, &Organism{Genotype: b}, &Organism{Genotype: c}
+	err := pop.speciate(&hCtx{opts: opts}, []*Organism{oa, ob})
+	vAssert(err == nil, "C08: speciation with the real distance succeeds")
+	if ob.Species != oa.Species || oa.Species == nil {
+		return
+	}
+	sp := oa.Species
+	fa, fb := vFloat("fitness.a"), vFloat("fitness.b")
+	vAssume(vAnd(vAnd(fa >= 0, fa <= 100), vAnd(fb >= 0, fb <= 100)))
+	oa.Fitness, ob.Fitness = fa, fb
+	sort.Sort(sort.Reverse(sp.Organisms)) // what adjustFitness does at the start of an epoch
+	if len(sp.Organisms) != 2 {
+		return
+	}
+	rep := sp.Organisms[0]
+	err = pop.speciate(&hCtx{opts: opts}, []*Organism{oc})
+	vAssert(err == nil, "C08: the later speciation pass succeeds")
+	d := c.compatFast(rep.Genotype, opts)
+	vAssert((oc.Species == sp) == (d < opts.CompatThreshold), "C08: an organism joins a species iff it is closer than the threshold to the species' CURRENT first organism")
 	vReach("end")
 }
